@@ -150,7 +150,7 @@ def run(tier, seed):
     ck.trusted = ["Lean 4.33.0 kernel; axioms audited", "tools/gen/c01.py", "tools/rx2lean.py + Rx.lean (regex fragment model)", "harness: simdevice/simtransport/chanscen (causal device, Decorator)"]
     ck.assumptions = ["causal device; sequences are ESC-introduced, contain no further introducer byte and are at most 256 bytes long (read boundaries may fall anywhere, also inside a sequence)",
                       "rough mode: junk bytes precede echoed bytes and are not input bytes",
-                      "login (channel_authenticate_*) chunking is covered by the C09 check"]
+                      "login (channel_authenticate_*): segmentation independence of outcome and bytes written is checked here on short dialogues (auth_family); what a login must do, and long / adversarial dialogues, are the C09 check's"]
     try:
         translate.translate("C01")
     except Exception as e:
@@ -237,6 +237,7 @@ def run(tier, seed):
             if observables(b, br) != observables(v, vr):
                 ck.violation({"base": b.describe(), "variant": v.describe(), "known": "F10", "tag": "f10"}, "generic prompt prefix matched early", matcher)
     timed_family(ck, tier, seed, modelq)
+    auth_family(ck, tier, seed)
     ansi_differential(ck, tier)
     try:
         outs = run_model("C01", [q[0] for q in modelq], native=True) if modelq else []
@@ -251,6 +252,55 @@ def run(tier, seed):
         else:
             ck.disagree("channel model vs real channel (variant replay)", desc, f"model={out[:300]} real={want[:300]}")
     return ck.finish()
+
+
+def auth_family(ck, tier, seed):
+    """`authenticate` is in the quantifier of C02: the in-channel login loops (channel_authenticate_telnet / _ssh, sync and asyncio)
+    against short causal login dialogues with valid credentials, a key passphrase, decorated prompts and a fatal ssh client message,
+    whole reads (reference) vs 1-byte reads, single and double cuts of the output stream.  Outcome, the bytes written to the device and
+    the device's final state must not depend on the segmentation.  (Rig and device: the C09 harness; what the login must do is C09's,
+    here only independence of the segmentation is judged.)"""
+    from props import c09
+    try:
+        import gen.c09 as G9
+        divisor = G9.return_divisor()
+    except Exception:
+        divisor = 10
+    rng = random.Random(f"{seed}-auth")
+    shorts = []
+    for stack in ("sync", "async"):
+        shorts.append(c09.base_case("telnet", stack, user_prompt="login: ", pass_prompt="Password: ", banner="hi\n", shell_prompt="r1#"))
+        shorts.append(c09.base_case("telnet", stack, user_prompt="Username:", pass_prompt="password:", nl="\r\n", shell_prompt="r1>"))
+        shorts.append(c09.base_case("telnet", stack, user_prompt="\x1b[0mlogin: ", pass_prompt="Password: ", banner="\x1b[1;32mhi\x1b[0m\n", shell_prompt="\x1b[32mr1#\x1b[0m"))
+        shorts.append(c09.base_case("ssh", stack, pass_prompt="a@r1's password: ", banner="ok\n", shell_prompt="r1#"))
+        shorts.append(c09.base_case("ssh", stack, passphrase="keypass", phrase_prompt="Enter passphrase for key '/k': ", shell_prompt="r1#"))
+        shorts.append(c09.base_case("ssh", stack, fatal="a@r1: Permission denied (publickey).\n", pre="Warning: x\n"))
+        shorts.append(c09.base_case("ssh", stack, fatal="Host key verification failed.\n", pre="@@@ WARNING @@@\n"))
+    cases, owner = [], []
+    for bi, c in enumerate(shorts):
+        n = c09.stream_len_estimate(c) + 2
+        singles = list(range(1, n)) if tier == "thorough" else rng.sample(range(1, n), min(n - 1, 14))
+        doubles = [sorted(rng.sample(range(1, n), 2)) for _ in range(4 if tier == "quick" else 120)]
+        for cuts in [["all"], ["one"]] + [["at", [i]] for i in singles] + [["at", d] for d in doubles]:
+            cases.append(c09.with_cuts(dict(c, build="driver" if (len(cases) % 2) else "args"), cuts))
+            owner.append(bi)
+    res = c09.run_cases(cases, divisor)
+
+    def obs(r):
+        return {"outcome": r["outcome"], "written": b"".join(w for _, w in r["writes"]).hex(), "accepted": r["accepted"], "closed": r["closed"]}
+    ref = {}
+    for c, bi, r in zip(cases, owner, res):
+        if c["cuts"] == ["all"]:
+            ref[bi] = (c, obs(r))
+    for c, bi, r in zip(cases, owner, res):
+        if c["cuts"] == ["all"]:
+            ck.case(("auth-ref", bi), nontrivial=False, tags=("authenticate", "reference"))
+            continue
+        ck.case(("auth", bi, json.dumps(c["cuts"])), nontrivial=len(r["tape"]) > 1, tags=("authenticate", c["flavour"], c["stack"], "cuts=" + c["cuts"][0]))
+        if obs(r) != ref[bi][1]:
+            diff = next(f"{k}: {ref[bi][1][k]!r} != {obs(r)[k]!r}" for k in ref[bi][1] if ref[bi][1][k] != obs(r)[k])
+            ck.violation({"tag": "authenticate", "login_case": c, "reference": ref[bi][1], "variant": obs(r), "diff": diff},
+                         f"[authenticate] outcome / bytes written of the in-channel login depend on the segmentation: {diff}")
 
 
 def timed_family(ck, tier, seed, modelq):
@@ -392,6 +442,18 @@ def _cut_inside(vres):
 def replay(path):
     r = json.load(open(path))
     c = r.get("violation", {}).get("case", {})
+    if c.get("tag") == "authenticate":
+        from props import c09
+        try:
+            import gen.c09 as G9
+            divisor = G9.return_divisor()
+        except Exception:
+            divisor = 10
+        lc = c["login_case"]
+        rr, rv = c09.run_cases([c09.with_cuts(lc, ["all"]), lc], divisor)
+        o = lambda x: (x["outcome"], b"".join(w for _, w in x["writes"]), x["accepted"], x["closed"])
+        print("reference:", o(rr), "\nvariant:  ", o(rv))
+        return 0 if o(rr) == o(rv) else 1
     if "base" not in c:
         print("replay file carries no scenario")
         return 1
